@@ -191,7 +191,7 @@ static inline Verdict check_c16_bottleneck(const PlainSystem& s, C16Stats* st = 
       st->below_bound++;
     bool ok = bmf ? (has_bottleneck(s, v, true, 0) || has_bottleneck(s, v, true, 1)) : has_bottleneck(s, v, false, 0);
     if (not ok)
-      return {v.value > 0 ? "no-bottleneck(rate>0)" : "no-bottleneck(rate=0)",
+      return {v.value > 0 ? "no-bottleneck(rate>0)" : (v.value < 0 ? "no-bottleneck(rate<0)" : "no-bottleneck(rate=0)"),
               fmt("variable %d (penalty %g, rate %.9g, bound %g) is below its bound and has no saturated constraint "
                   "on which its penalty-weighted %s is the largest",
                   v.id, v.penalty, v.value, v.bound, bmf ? "share" : "rate")};
